@@ -4,6 +4,8 @@ import (
 	"fmt"
 	"go/ast"
 	"go/token"
+	"os"
+	"path/filepath"
 	"strconv"
 	"strings"
 )
@@ -104,6 +106,13 @@ func init() {
 		}
 		out += "\n/-- String literals of `buildGetQuery`'s `if opts.VersionFiltering` block, and the\n    `VersionRange(...)` constructor calls of the vulnerability insert statement. -/\n"
 		out += "def dbRangeTest : List String := " + LeanStrList(sqlLits) + "\n"
+		// the pinned versions of the three third-party comparators the models transcribe
+		pins, err := c03Pins(repo)
+		if err != nil {
+			return "", err
+		}
+		out += "\n/-- go.mod: the versions of go-rpm-version, go-deb-version, go-apk-version. -/\n"
+		out += "def comparatorPins : List String := " + LeanStrList(pins) + "\n"
 		return out + Footer("Matchers"), nil
 	}})
 }
@@ -257,4 +266,32 @@ func c03SQLFacts(repo string) ([]string, error) {
 		return nil, fmt.Errorf("updatevulnerabilities.go: no VersionRange(...) constructor found")
 	}
 	return lits, nil
+}
+
+// c03Pins reads the require lines of the three comparator libraries from go.mod.
+func c03Pins(repo string) ([]string, error) {
+	b, err := os.ReadFile(filepath.Join(repo, "go.mod"))
+	if err != nil {
+		return nil, err
+	}
+	var out []string
+	for _, mod := range []string{"github.com/knqyf263/go-apk-version", "github.com/knqyf263/go-deb-version", "github.com/knqyf263/go-rpm-version"} {
+		found := ""
+		for _, line := range strings.Split(string(b), "\n") {
+			f := strings.Fields(line)
+			if len(f) >= 2 && f[0] == mod {
+				found = f[0] + " " + f[1]
+			} else if len(f) >= 3 && f[0] == "require" && f[1] == mod {
+				found = f[1] + " " + f[2]
+			} else if len(f) >= 4 && f[0] == "replace" && f[1] == mod {
+				found = strings.Join(f[1:], " ")
+				break
+			}
+		}
+		if found == "" {
+			return nil, fmt.Errorf("go.mod: no requirement for %s", mod)
+		}
+		out = append(out, found)
+	}
+	return out, nil
 }
